@@ -300,7 +300,11 @@ def build_script(ctx, items, warm=True, snap=True):
         real = result == "replaced"
         ini = ini_for(f, ctx)
         kind, p, argv, envp = call_for(call, ctx, real)
-        s.add("emit", "item:" + label).add("fork")
+        s.add("emit", "item:" + label)
+        if call.get("pid"):
+            s.add("forkpid", int(call["pid"][1:]))        # SnoopyCallMC!PidClasses: "p<number>"
+        else:
+            s.add("fork")
         if f.get("out") in ("devlog", "default", "unknown") and f.get("sinkst", "ok") != "ok":
             s.add("envset", drv.hx(b"REC_DEVLOG"), drv.hx(ctx.nosock if f["sinkst"] == "absent" else ctx.full))
         if f.get("out") == "devtty" and f.get("state") == "ok":
@@ -324,7 +328,7 @@ def build_script(ctx, items, warm=True, snap=True):
     return s
 
 
-def run_batches(build, items, workdir, workers=None, warm=True, snap=True, timeout=900):
+def run_batches(build, items, workdir, workers=None, warm=True, snap=True, timeout=900, pidns=False):
     """Execute items (label, file, call, result) in `workers` parallel xdrv processes, each in its own mount
     namespace with a private copy of the library's config directory. Returns {label: observation dict}."""
     workers = workers or c.NCPU
@@ -345,6 +349,8 @@ def run_batches(build, items, workdir, workers=None, warm=True, snap=True, timeo
             os.unlink(op)
         ini = os.path.join(ctx.etc, "snoopy.ini") if can_ns else build["ini"]
         cmd = ["env", "LD_PRELOAD=" + pre] + ["%s=%s" % kv for kv in SAN_ENV.items()] + [ "XDRV_INI=" + ini, os.path.join(c.BUILD, "xdrv"), sp, op]
+        if pidns:                                  # a private pid namespace (own pid_max, pids chosen with clone3 set_tid) with its own /proc
+            cmd = ["unshare", "-p", "-f", "--mount-proc"] + cmd
         env = {"PATH": "/usr/sbin:/usr/bin:/sbin:/bin", "HOME": "/root", "LANG": "C", "TZ": "UTC"}
         try:
             p = subprocess.run(cmd, env=env, capture_output=True, timeout=timeout, stdin=subprocess.DEVNULL, cwd=ctx.w)
